@@ -45,6 +45,10 @@ ROWS = {
    technique='enumeration of the addressing cross product (pair-covering + strided sample in quick, complete in thorough) with a reference predicate written from the four clauses of the statement',
    text='Rows over InResponseTo x bearer confirmations (incl. several per assertion) x Destination x AudienceRestrictions x Recipient x allow_unsolicited x conversation info x destination pattern x plain/encrypted x POST/Redirect/Artifact/SOAP x signed/unsigned are rendered and delivered; must-reject rows must be refused, conformant rows accepted, came_from must name the answered request.',
    note=TOOL_NOTE + '; solicitation judged for browser bindings only; frozen clock.'),
+ 'C07': dict(level='exploration', design='3/C07',
+   technique='property-based testing: generated identities x release policies x SP metadata declarations (single answers and sequences on one long-lived IdP), subset oracle against a permissive reference policy model; output read with ElementTree',
+   text='Every (attribute, value) the IdP/AA puts into an authentication or attribute response must be in the identity and allowed by the most permissive reading of the documented policy (restrictions by name/regex, entity categories, declared required/optional attributes and values); error responses must carry no attributes.',
+   note='Unsigned responses (no tool); reference model harness/models/policy.py; the oracle is a subset test and cannot fire on releasing less.'),
 }
 NOT_YET = {}
 def main():
